@@ -257,13 +257,68 @@ def run(prog, tier) -> Result:
             return ("Unit(symbol) does not return the directory entry", repr(v))
         return None
     run_entry(prog, res, "R15.3", "Unit.__new__", "lookup by symbol", un_body, judge_un, min_paths=2)
-    for name, want in (("units", "values"), ("__len__", None), ("__contains__", None), ("__iter__", None),
-                       ("get_unit_by_symbol", None)):
-        fi = prog.method("QuantityMeta", name)
-        reads = [n for n in ast.walk(fi.node) if isinstance(n, ast.Attribute) and n.attr == "_unit_map"
-                 and src_of(n.value) == fi.node.args.args[0].arg]
-        res.ob("R15.3", f"QuantityMeta.{name}", "reads the type's own unit map", bool(reads), src_of(fi.node)[-120:],
-               sig="per-type query does not read the type's unit map", nontrivial=False)
+    # the per-type queries, evaluated on a type created through the metaclass protocol that then declares one more
+    # unit: units(), len(), `symbol in cls`, iter(), get_unit_by_symbol() answer from exactly that type's units
+    from ..declcases import create_class as _create_class
+    nu_ = prog.method("QuantityMeta", "new_unit")
+
+    def q_body(I, c):
+        base_types(c)
+        try:
+            cls = _create_class(prog, I, c, derived=False, ref_symbol=True, ref_name=True)
+        except AbsRaise:
+            raise Infeasible        # (rejected class declarations are R15.7's subject)
+        tid = c.st.tfind(cls.tid)
+        ru = c.st.cls_fields.get((tid, "_ref_unit"))
+        m = I.models
+        try:
+            ref_sym = m.get_attr(ru, "symbol", None)
+            nu = I.call_function(nu_, [cls, StrV("xx"), StrV("the new unit")], {})
+        except AbsRaise:
+            raise Infeasible        # declarations rejected on this path (symbol taken, ...): nothing to query
+        QM = lambda n: prog.method("QuantityMeta", n)
+        out = {"ru": ru, "nu": nu}
+        out["units"] = I.call_function(QM("units"), [cls], {})
+        out["len"] = I.call_function(QM("__len__"), [cls], {})
+        out["has_new"] = m.truth(I.call_function(QM("__contains__"), [cls, StrV("xx")], {}), None)
+        out["has_ref"] = m.truth(I.call_function(QM("__contains__"), [cls, ref_sym], {}), None)
+        out["has_other"] = m.truth(I.call_function(QM("__contains__"), [cls, StrV("zz")], {}), None)
+        out["iter"] = m.iterate(I.call_function(QM("__iter__"), [cls], {}), None)
+        out["get_new"] = I.call_function(QM("get_unit_by_symbol"), [cls, StrV("xx")], {})
+        out["get_ref"] = I.call_function(QM("get_unit_by_symbol"), [cls, ref_sym], {})
+        try:
+            out["get_other"] = I.call_function(QM("get_unit_by_symbol"), [cls, StrV("zz")], {})
+        except AbsRaise as ar:
+            out["get_other"] = ar.exc.name
+        c.st.q15 = out
+        c.st.q15_refsym = ref_sym
+        return NONE
+
+    def q_judge(o):
+        if o.kind == "raise":
+            return (exc_sig(o), "a query on the type's units raises")
+        r = o.state.q15
+        ru, nu = r["ru"], r["nu"]
+        us = r["units"]
+        items = getattr(us, "items", None)
+        if items is None or len(items) != 2 or not ((items[0] is ru and items[1] is nu) or (items[0] is nu and items[1] is ru)):
+            return ("units() does not list exactly the type's units", repr(us))
+        if not (isinstance(r["len"], Num) and o.state.norm(r["len"].rf).equals(RF.const(2))):
+            return ("len(type) is not the number of its units", repr(r["len"]))
+        if not (r["has_new"] and r["has_ref"]) or r["has_other"]:
+            return ("`symbol in type` does not answer for exactly the type's symbols",
+                    f"new unit's symbol: {r['has_new']}, reference unit's symbol: {r['has_ref']}, foreign symbol: {r['has_other']}")
+        it = r["iter"]
+        if it is None or len(it) != 2 or not any(isinstance(x, StrV) and x.const == "xx" for x in it) or \
+                not any(x is o.state.q15_refsym or (isinstance(x, StrV) and x.tag == getattr(o.state.q15_refsym, "tag", None)) for x in it):
+            return ("iter(type) does not yield exactly the type's symbols", repr(it))
+        if r["get_new"] is not nu or r["get_ref"] is not ru:
+            return ("get_unit_by_symbol does not return the unit declared under the symbol", f"{r['get_new']!r}, {r['get_ref']!r}")
+        if r["get_other"] != "ValueError":
+            return ("get_unit_by_symbol does not raise ValueError for a symbol of another type", repr(r["get_other"]))
+        return None
+    run_entry(prog, res, "R15.3", "QuantityMeta queries", "units / len / in / iter / get_unit_by_symbol on a new type with two units",
+              q_body, q_judge, max_depth=14)
 
     # ---- R15.4 factory dispatch
     new = prog.method("Quantity", "__new__")
@@ -312,8 +367,15 @@ def run(prog, tier) -> Result:
             um = st.cls_fields.get((tid, "_unit_map"))
             has_ref_unit = isinstance(ru, ObjV)
             expects_ref = ref or derived    # derived over types with reference units: symbol synthesised
-            if expects_ref and not has_ref_unit and ref:
-                return ("reference unit missing", repr(ru))
+            if expects_ref and not has_ref_unit:
+                return ("reference unit missing", f"{ru!r}: a type declared with a reference unit symbol, or derived from "
+                        f"types that have reference units, has a reference unit")
+            if has_ref_unit and ref:
+                sy, nm_ = ru.fields.get("_symbol"), ru.fields.get("_name")
+                if not (isinstance(sy, StrV) and sy.tag == "refsym"):
+                    return ("reference unit does not carry the given symbol", f"symbol {sy!r}, name {nm_!r}")
+                if not (isinstance(nm_, StrV) and nm_.tag == "refname"):
+                    return ("reference unit does not carry the given name", f"symbol {sy!r}, name {nm_!r}")
             if has_ref_unit:
                 eq = ru.fields.get("_equiv")
                 if not isinstance(eq, Num) or not st.norm(eq.rf).is_one():
